@@ -149,36 +149,56 @@ def schedRun (P : Prog) (n : Nat) : Nat → State → Nat → State
     | none => s
     | some s' => schedRun P n fuel (compact n s') (lcg seed)
 
-/-! ### correspondence with the source skeleton (`Gen/C19Skel.lean`, regenerated on every run) -/
+/-! ### correspondence with the source skeleton (`Gen/C19Skel.lean`, regenerated on every run)
 
-/-- the source events each step of a call stands for (the step leaving that pc) -/
+The skeleton is a NORMAL FORM (see `gen/c19sym.go`): the paths of `Handle` after inlining every
+function of the package, each path the list of the operations on the shared and pooled objects
+in EXECUTION order.  An object is named by the type of the handler field that holds it
+(`h.<sync.Mutex>`, whatever intermediate struct it lives in), the pooled object is
+`syncutil.Pool.Get#1`, its parts are named by type as well; arguments are data-flow terms.  Kinds:
+`call` (executed in line), `defer` (registration of a deferred call, with the callees it will
+run), `run` (a deferred call running, LIFO at the return of the function or helper that
+registered it), `assume`/`assume-not` (an undecided branch), `return`. -/
+
+def evGet : String := "syncutil.Pool.Get(h.<syncutil.Pool[{bytes.Buffer,slog.TextHandler}]>)"
+def evReset : String := "bytes.Buffer.Reset(syncutil.Pool.Get#1.<bytes.Buffer>)"
+def evAddAttrs : String := "slog.Record.AddAttrs(slog.Record.Clone(arg2); h.<[]slog.Attr>...)"
+def evTextHandle : String :=
+  "slog.TextHandler.Handle(syncutil.Pool.Get#1.<slog.TextHandler>; arg1, slog.Record.Clone(arg2)+slog.Record.AddAttrs#1)"
+def evBytes : String := "bytes.Buffer.Bytes(syncutil.Pool.Get#1.<bytes.Buffer>)"
+def evLock : String := "sync.Mutex.Lock(h.<sync.Mutex>)"
+def evEncode : String :=
+  "json.Encoder.Encode(h.<json.Encoder>; {severity=ite((arg2.Level >= 8), \"ERROR\", \"NORMAL\"); message=bytes.Buffer.Bytes#1[:(len(bytes.Buffer.Bytes#1) - 1)]})"
+def evUnlock : String := "sync.Mutex.Unlock(h.<sync.Mutex>)"
+def evPut : String := "syncutil.Pool.Put(h.<syncutil.Pool[{bytes.Buffer,slog.TextHandler}]>; syncutil.Pool.Get#1)"
+
+/-- the source operations each step of a call stands for (the step leaving that pc) -/
 def stepEvents : PC → List String
-  | .start => ["poolGet"]
-  | .got => ["reset"]
-  | .rendering => ["clone", "addAttrs(h.textAttrs...)", "textHandle"]
-  | .rendered => ["bufBytes", "slice(msg[:len(msg)-1])", "newMsg(r.Level, msg)", "lock"]
-  | .locked => ["encode"]
+  | .start => [evGet]
+  | .got => [evReset]
+  | .rendering => [evAddAttrs, evTextHandle]
+  | .rendered => [evBytes, evLock]
+  | .locked => [evEncode]
   | .writing => []
-  | .unlocking => ["unlock"]
-  | .putting => ["poolPut"]
+  | .unlocking => [evUnlock]
+  | .putting => [evPut]
   | .done => []
 
-/-- the order in which one call executes the events -/
+/-- the order in which one call executes the operations -/
 def programOrder : List String :=
   [PC.start, .got, .rendering, .rendered, .locked, .writing, .unlocking, .putting].flatMap stepEvents
 
-/-- Execution order of a straight-line skeleton (events are (kind, name) pairs) on its success
-path: `if … endif` blocks (error exits) are skipped, the walk stops at the first `return`
-outside them, and the deferred calls then run in reverse order of registration. -/
-def execOrderAux : List (String × String) → Bool → List String → List String → List String
-  | [], _, acc, defers => acc ++ defers
-  | (kind, name) :: rest, skipping, acc, defers =>
-    if skipping then execOrderAux rest (kind != "endif") acc defers
-    else if kind = "if" then execOrderAux rest true acc defers
-    else if kind = "defer" then execOrderAux rest false acc (name :: defers)
-    else if kind = "return" then acc ++ defers
-    else execOrderAux rest false (acc ++ [name]) defers
+/-- the error exit (the text handler failed): the mutex is never taken, the pooled object is
+put back -/
+def errorOrder : List String := [evGet, evReset, evAddAttrs, evTextHandle, evPut]
 
-def execOrder (skel : List (String × String)) : List String := execOrderAux skel false [] []
+/-- The operations a path of the skeleton executes, in execution order. -/
+def pathOps (path : List (String × String)) : List String :=
+  (path.filter fun e => e.1 == "call" || e.1 == "run").map (·.2)
+
+/-- The operations of a path that run as deferred calls (they also run when the code in between
+panics). -/
+def pathDeferred (path : List (String × String)) : List String :=
+  (path.filter fun e => e.1 == "run").map (·.2)
 
 end GolibsVerif.C19.Lts
